@@ -383,6 +383,8 @@ def run(ctx, prop):
         hist.append(('servers', mc.gen_servers(scn, rng, rng.choice([5, 8, 12]))))
     for _ in range(120 if ctx.quick else 1500):
         hist.append(('defer', mc.gen_defer(scn, rng)))
+    for _ in range(80 if ctx.quick else 1000):
+        hist.append(('topology', mc.gen_topology(scn, rng)))
     if prop in ('C11', 'C09'):
         for _ in range(40 if ctx.quick else 600):
             hist.append(('lease-failover', gen_lease_failover(scn, rng)))
